@@ -22,6 +22,7 @@
 import KavaVerif.Proofs.AuctionSteps
 import KavaVerif.Proofs.AuctionLive
 import KavaVerif.Generated.C06Auction
+import KavaVerif.Proofs.TieFnAuction
 set_option linter.unusedSimpArgs false
 set_option linter.unusedVariables false
 
@@ -358,5 +359,17 @@ example :
     s.bal 5 1 = 500 ∧                           -- outbid bidder 5 made whole
     s.bal 6 0 = 4 ∧ s.bal 7 0 = 3 ∧ s.bal 8 0 = 3 ∧   -- 10 returned, split 4/3/3
     s.bal 1 3 = 1000 ∧ s.bal 1 1 = 1000 + 60 := by decide
+
+/-! ## source tie (regenerated)
+
+    `GoFn.Auction.*` (Generated/FnAuction.lean) is regenerated on every run from the Go source of
+    x/auction/keeper/auctions.go by the function translator (tools/extract/fn*.go); the theorem says that the
+    regenerated definition IS the hand-written model function.  Proof: Proofs/TieFnAuction.lean. -/
+
+/-- `earliestTime(now.Add(d), maxEnd)`, the new end time of an auction after a bid, = `endTime now d maxEnd` -/
+theorem C06_source_tie_earliestTime (now d maxEnd : Int) :
+    GoFn.Auction.earliestTime_translated = true ∧
+    GoFn.Auction.earliestTime (now + d) maxEnd = Go.R.ok (endTime now d maxEnd) :=
+  TieFn.auction_earliestTime now d maxEnd
 
 end KV.Auc
